@@ -14,10 +14,7 @@ package bulkhead
 //@ extfunc context.Background
 //@   modifies nothing
 //@   ensures result != nil && result == background()
-//@ extfunc context.Context.Done
-//@   modifies nothing
-//@ extfunc context.Context.Err
-//@   modifies nothing
+// (context.Context.Done / Err: assumed contracts in the root package's verif_contracts.go)
 
 //@ func (*config).Build
 //@   requires c != nil
@@ -41,7 +38,7 @@ package bulkhead
 //@   ensures [C06.acquire] (result == nil) ==> tokens(b.semaphore) == old(tokens(b.semaphore)) + 1
 //@   ensures [C06.acquire.cancelled] (result != nil) ==> tokens(b.semaphore) == old(tokens(b.semaphore))
 //@   havoc
-//@   modifies tokens(b.semaphore), calls(ctx.Done), calls(ctx.Err), calls(background().Done), calls(background().Err)
+//@   modifies tokens(b.semaphore), calls(ctx.Done), calls(ctx.Err), calls(background().Done), calls(background().Err), canceled(ctx), canceled(background())
 
 //@ func (*bulkhead).AcquirePermitWithMaxWait
 //@   requires b != nil
@@ -50,7 +47,7 @@ package bulkhead
 //@   ensures [C06.acquirewait.refused] (result != nil) ==> tokens(b.semaphore) == old(tokens(b.semaphore))
 //@   ensures [C06.acquirewait.errors] result != nil ==> result == ErrFull || ncalls(ite(ctx == nil, background(), ctx).Err) == 1
 //@   havoc
-//@   modifies tokens(b.semaphore), calls(ctx.Done), calls(ctx.Err), calls(background().Done), calls(background().Err)
+//@   modifies tokens(b.semaphore), calls(ctx.Done), calls(ctx.Err), calls(background().Done), calls(background().Err), canceled(ctx), canceled(background())
 
 //@ func (*executor).PreExecute
 //@   requires e != nil && e.bulkhead != nil && e.config != nil && exec != nil
@@ -59,7 +56,7 @@ package bulkhead
 //@   ensures [C06.pre.refused] result != nil ==> tokens(e.semaphore) == old(tokens(e.semaphore)) && result.Error != nil && result.Done && !result.Success
 //@   ensures [C16.bulkhead.onfull] result != nil && e.onFull != nil ==> ncalls(e.onFull) == b2i(ufb("errors.Is", result.Error, ErrFull))
 //@   havoc
-//@   modifies tokens(e.semaphore), calls(exec.Context), calls(e.onFull), calls(ctx.Done), calls(ctx.Err), calls(background().Done), calls(background().Err)
+//@   modifies tokens(e.semaphore), calls(exec.Context), calls(e.onFull), calls(ctx.Done), calls(ctx.Err), calls(background().Done), calls(background().Err), canceled(ctx), canceled(background())
 
 //@ func (*executor).PostExecute
 //@   requires e != nil && e.bulkhead != nil
@@ -79,4 +76,4 @@ package bulkhead
 //@   ensures [C06.refused_skips_inner] ncalls(innerFn) == 0 ==> result.Error != nil && !result.Success
 //@   ensures [C06.admitted_returns_inner] ncalls(innerFn) == 1 ==> result == ret(innerFn, 1) && arg(innerFn, 1, 0) == exec
 //@   havoc
-//@   modifies calls(innerFn), calls(exec.Context), calls(e.onFull), calls(ctx.Done), calls(ctx.Err), calls(background().Done), calls(background().Err)
+//@   modifies calls(innerFn), calls(exec.Context), calls(e.onFull), calls(ctx.Done), calls(ctx.Err), calls(background().Done), calls(background().Err), canceled(ctx), canceled(background())
